@@ -139,7 +139,11 @@ func (xc *XMCache) Put(bucket string, key []byte, value []byte) error {
 	}
 	if bucket != TransientBucket {
 		// put 前先强制get一下
-		xc.Get(bucket, key)
+		// the read puts the key into the read set; if the underlying state cannot be read the write is refused
+		// (otherwise the key would be written without having been read)
+		if _, err := xc.Get(bucket, key); err != nil && err != ErrNotFound && err != ErrHasDel {
+			return err
+		}
 	}
 	return xc.outputsCache.Put(bucket, key, val)
 }
